@@ -594,6 +594,155 @@ def report_failure(ctx: C.Ctx, case: Dict[str, Any], r, queries: List[int]) -> N
                        r2[1], r2[2], case_tags(small, layout, what, r2[1], r2[2])))
 
 
+
+# --------------------------------------------------------------------------- Lean side (tie + hypothesis + spec)
+
+def lean_id(canon: str) -> str:
+    return format(int(vid(canon), 16), "x")
+
+
+def lean_val(o: Dict[str, Any]) -> str:
+    """Value of a written object as the driver reads it."""
+    if o["kind"] == "objstm":
+        toks = ["n%d" % k for k in o["pairs"]] + ["v" + lean_id(canon_pdf(v)) for v in o["vals"]]
+        return "o%s/%d/%s" % (lean_id(canon_pdf(o["val"])), o["N"], ";".join(toks) if toks else "-")
+    return "p" + lean_id(canon_pdf(o["val"]))
+
+
+def opt(x) -> str:
+    return "-" if x is None else str(x)
+
+
+def csv(xs) -> str:
+    return ",".join(str(x) for x in xs) if xs else "-"
+
+
+def lean_setup_lines(data: bytes, layout: Dict[str, Any], revs: List[CW.Rev]) -> List[str]:
+    lines = ["reset", "data " + C.hx(data)]
+    for sec in layout["sections"]:
+        for part in sec["parts"]:
+            tr = f"{opt(part['prev'])} {opt(part['xrefstm'])} {opt(part['root'])} {opt(part['info'])}"
+            if part["kind"] == "table":
+                lines.append(f"sec {part['pos']} t {part['after_kw']} {tr}")
+            else:
+                idx = "-" if part["index"] is None else csv(part["index"])
+                lines.append(f"sec {part['pos']} s {part['size']} {idx} {csv(part['w'])} {C.hx(part['data'])} {tr}")
+    byn: Dict[Tuple[int, int], Dict[str, Any]] = {}
+    for o in layout["objects"]:
+        lines.append(f"obj {o['pos']} {o['n']} {o['gen']} {lean_val(o)}")
+        lines.append(f"end {o['pos']} {o['end']}")
+        byn[(o["rev"], o["n"])] = o
+    # history NEWEST FIRST, one (sub-)revision per cross-reference section: a hybrid revision is
+    # split into its table part and its stream part
+    for sec in reversed(layout["sections"]):
+        k = sec["rev"]
+        rev = revs[k]
+        for part in sec["parts"]:
+            if part["kind"] == "table":
+                nums = [e[0] for e in part["entries"] if e[3] == "n"]
+            else:
+                nums = [r[0] for r in part["rows"] if r[1] in (1, 2)]
+            defs = []
+            for n in nums:
+                if (k, n) in byn:
+                    defs.append(f"{n}:{lean_val(byn[(k, n)])}")
+                else:
+                    defs.append(f"{n}:p{lean_id(canon_pdf(rev.defs[n]))}")
+            lines.append(f"rev {rev.root} {opt(rev.info)} " + " ".join(defs))
+    return lines
+
+
+def to_lean_res(canon: str, containers: Dict[str, str]) -> str:
+    """Implementation / Python-spec answer in the driver's output vocabulary."""
+    if canon.startswith("E:"):
+        return canon
+    if canon.startswith("EXC:"):
+        return canon
+    if canon in containers:
+        return "o" + lean_id(canon)
+    return "p" + lean_id(canon)
+
+
+def norm_lean(tok: str) -> str:
+    if tok.startswith("i") and tok[1:].isdigit():
+        return "p" + lean_id("i:" + tok[1:])
+    return tok
+
+
+def impl_offsets(data: bytes) -> List[str]:
+    """PDFXRef.offsets of every classic section, newest first, in the driver's `q.table` format."""
+    from pdfminer.pdfdocument import PDFDocument, PDFXRef, PDFXRefFallback
+    from pdfminer.pdfparser import PDFParser
+    doc = PDFDocument(PDFParser(io.BytesIO(data)))
+    out = []
+    for x in doc.xrefs:
+        if isinstance(x, PDFXRef) and not isinstance(x, PDFXRefFallback):
+            out.append(" ".join(f"{n}={p}:{g}" for n, (_s, p, g) in x.offsets.items()) or "-")
+    return out
+
+
+def tie_case(ctx: C.Ctx, case: Dict[str, Any], data: bytes, layout: Dict[str, Any], revs: List[CW.Rev],
+             queries: List[int], exp: Dict[str, Any], bufs: List[int]) -> None:
+    if ctx.driver is None:
+        return
+    containers = {canon_pdf(o["val"]): 1 for o in layout["objects"] if o["kind"] == "objstm"}
+    qs = csv(queries)
+    lines = lean_setup_lines(data, layout, revs)
+    nsetup = len(lines)
+    bound = layout["maxn"] + 3
+    qlines = ["q.open 4096", "q.sections", "q.rootinfo", f"q.queries 0 {qs}", f"q.queries 1 {qs}",
+              f"q.spec {qs}", "q.specrootinfo", "q.specinuse", f"q.repok {bound}"]
+    for b in bufs:
+        qlines += [f"q.findxref {b}", f"q.revlines {b} 8"]
+    tparts = [part for sec in reversed(layout["sections"]) for part in sec["parts"] if part["kind"] == "table"]
+    for part in tparts:
+        qlines.append(f"q.table {part['after_kw']}")
+    out = ctx.driver.ask(lines + qlines)
+    inp = {"kind": "history", "case": case, "queries": queries}
+    if any(o != "ok" for o in out[:nsetup]):
+        ctx.disagree("setup", inp, "ok", [o for o in out[:nsetup] if o != "ok"][:3])
+        return
+    r = dict(zip(qlines, out[nsetup:]))
+    impl0 = impl_observe(data, 4096, False, queries)
+    impl1 = impl_observe(data, 4096, True, queries)
+
+    def cmp(op: str, impl: Any, model: Any) -> None:
+        ctx.branch("tie:" + op.split(" ")[0])
+        if impl != model:
+            ctx.disagree(op, inp, impl, model)
+
+    if impl0.get("open") == "ok":
+        cmp("q.open", f"ok {len(impl0['sections'])}", r["q.open 4096"])
+        cmp("q.sections", " ".join(("T:" if k == "PDFXRef" else "S:") + csv(ids) for (k, ids, _d) in impl0["sections"]),
+            r["q.sections"])
+        cmp("q.rootinfo", "root " + to_lean_res(impl0["catalog"], containers) + " info " +
+            (",".join(to_lean_res(c, containers) for c in impl0["info"]) or "-"), r["q.rootinfo"])
+        cmp("q.queries-nocache", [to_lean_res(c, containers) for c in impl0["getobj"]],
+            [norm_lean(t) for t in r[f"q.queries 0 {qs}"].split(" ")])
+        cmp("q.queries-cache", [to_lean_res(c, containers) for c in impl1["getobj"]],
+            [norm_lean(t) for t in r[f"q.queries 1 {qs}"].split(" ")])
+        try:
+            offs = impl_offsets(data)
+        except Exception as e:  # noqa: BLE001
+            offs = ["EXC:" + type(e).__name__]
+        for part, io_ in zip(tparts, offs):
+            got = r[f"q.table {part['after_kw']}"]
+            cmp("q.table", f"ok {part['trailer_at']} {io_}", got)
+    else:
+        cmp("q.open", impl0.get("open"), r["q.open 4096"])
+    # Lean spec == Python twin of the spec (so the oracle used on the implementation is the Lean one)
+    cmp("q.spec", [to_lean_res(c, containers) for c in exp["getobj"]], r[f"q.spec {qs}"].split(" "))
+    cmp("q.specrootinfo", "root " + to_lean_res(exp["catalog"], containers) + " info " +
+        (to_lean_res(exp["info"][0], containers) if exp["info"] else "-"), r["q.specrootinfo"])
+    cmp("q.specinuse", " ".join(csv(ids) for (_k, ids, _d) in exp["sections"]), r["q.specinuse"])
+    # the theorems' hypothesis holds for this file
+    ctx.branch("hyp:repOK:" + r[f"q.repok {bound}"])
+    if r[f"q.repok {bound}"] != "true":
+        ctx.disagree("q.repok", inp, "true", r[f"q.repok {bound}"])
+    for b in bufs:
+        cmp(f"q.findxref {b}", find_xref_impl(data, b), r[f"q.findxref {b}"])
+        cmp(f"q.revlines {b}", ",".join(C.hx(x) for x in revlines_impl(data, b, 8)), r[f"q.revlines {b} 8"])
+
 # --------------------------------------------------------------------------- damaged single-revision files
 
 def gen_damaged(rng) -> Dict[str, Any]:
@@ -697,15 +846,16 @@ def check_damaged(ctx: Optional[C.Ctx], dc: Dict[str, Any], bufsiz: int = 4096):
     exp_s = {n: (canon_pdf(W.Stream(o.d, o.data.rstrip(b"\r\n"))) if isinstance(o, W.Stream) else exp[n])
              for n, o in objs.items()}
     if got.get("open") != "ok":
-        return ("damaged-open", "ok", got.get("open"))
+        return ("damaged-open", "ok", got.get("open"), {"fallback_used": None})
+    extra = {"fallback_used": any(s[0] == "PDFXRefFallback" for s in got["sections"])}
     for n, g in zip(nums, got["getobj"]):
         if g != exp_s[n]:
-            return ("damaged-getobj", {"n": n, "value": exp_s[n]}, {"n": n, "value": g})
+            return ("damaged-getobj", {"n": n, "value": exp_s[n]}, {"n": n, "value": g}, extra)
     ids = sorted(set().union(*[set(s[1]) for s in got["sections"] if isinstance(s[1], list)])) if got["sections"] else []
     if not set(nums) <= set(ids):
-        return ("damaged-objids", nums, ids)
+        return ("damaged-objids", nums, ids, extra)
     if text_bad != text_good or not text_good.startswith("T:"):
-        return ("damaged-text", text_good, text_bad)
+        return ("damaged-text", text_good, text_bad, extra)
     return None
 
 
@@ -718,7 +868,7 @@ WHAT.update({
 
 
 def report_damaged(ctx: C.Ctx, dc: Dict[str, Any], r, bufsiz: int) -> None:
-    what, exp, got = r
+    what = r[0]
     cur = json.loads(json.dumps(dc))
     # shrink: drop extra objects, texts
     for k in list(cur["extra"]):
@@ -737,14 +887,32 @@ def report_damaged(ctx: C.Ctx, dc: Dict[str, Any], r, bufsiz: int) -> None:
             break
     r2 = check_damaged(None, cur, bufsiz) or r
     ctx.fail(C.Failure(WHAT[what], {"kind": "damaged", "case": cur, "bufsiz": bufsiz}, r2[1], r2[2],
-                       {"what": what, "damage": cur["damage"], "eol": cur["eol"]}))
+                       dict({"what": what, "damage": cur["damage"], "eol": cur["eol"]}, **r2[3])))
 
 
 # --------------------------------------------------------------------------- classifiers
 
+def has_bare_ref_member(case: Dict[str, Any]) -> bool:
+    """Some object stream of the written file has a member whose whole value is an indirect reference."""
+    for rv, p in zip(case["revs"], case["plans"]):
+        if p["form"] == "table":
+            continue
+        for g in p["groups"]:
+            for n in g:
+                v = rv["defs"].get(str(n))
+                if v is not None and v[0] == "R" and str(n) not in case["gens"]:
+                    return True
+    return False
+
+
 CLASSIFIERS = {
-    "c02_wellformed_table_wrong_offsets": lambda f: f.tags.get("damage") == "table-offsets"
-    and f.tags.get("what") in ("damaged-open", "damaged-getobj", "damaged-objids", "damaged-text"),
+    # open: `3 0 R` as the whole value of a compressed object
+    "c02_objstm_bare_reference_member": lambda f: f.input.get("kind") == "history"
+    and f.tags.get("what") in ("getobj", "open", "catalog", "info") and has_bare_ref_member(f.input["case"]),
+    # open: the damaged cross-reference data still parses, so PDFNoValidXRef is never raised and the body is not scanned
+    "c02_damaged_xref_parses_no_rescan": lambda f: f.input.get("kind") == "damaged"
+    and f.tags.get("damage") in ("table-offsets", "startxref-num") and f.tags.get("fallback_used") is False
+    and f.tags.get("what") in ("damaged-getobj", "damaged-objids", "damaged-text"),
 }
 
 
@@ -786,6 +954,9 @@ def run_history_cases(ctx: C.Ctx) -> None:
         r = check_case(ctx, case, configs, queries)
         if r is not None:
             report_failure(ctx, case, r, queries)
+        if not has_bare_ref_member(case):
+            exp = spec_observe(revs, layout, queries)
+            tie_case(ctx, case, data, layout, revs, queries, exp, BUFSIZES if i % 3 == 0 else [bs[0], bs[1], 4096])
 
 
 def run_damaged_cases(ctx: C.Ctx) -> None:
@@ -826,7 +997,7 @@ def replay(ctx: C.Ctx, doc: Dict[str, Any], from_corpus: bool = False) -> None:
         r = check_damaged(ctx, inp["case"], inp.get("bufsiz", 4096))
         if r is not None:
             ctx.fail(C.Failure(WHAT[r[0]], inp, r[1], r[2],
-                               {"what": r[0], "damage": inp["case"]["damage"], "eol": inp["case"]["eol"]}))
+                               dict({"what": r[0], "damage": inp["case"]["damage"], "eol": inp["case"]["eol"]}, **r[3])))
 
 
 def run(ctx: C.Ctx) -> None:
